@@ -30,7 +30,11 @@ CONSTANTS
   OptSets,       \* medium option sets offered: records [keep, shared, queue, delay]
   MaxPub, MaxFaults, MaxTicks, MaxResub,
   QMax,          \* queueMaxSize in bytes (every payload is one byte)
-  Urgent
+  Urgent,
+  Timed,         \* TRUE: explicit clock (Advance / TickOne per connection); FALSE: Tick abstracts "the delay elapsed"
+  CheckDelay,    \* ClientChannelPositionCheckDelay in seconds
+  Advances,      \* clock steps offered to Advance
+  MaxNow
 
 Positioned(s) == s \in {"p1", "p2"}
 InsufficientCode == 2500
@@ -49,14 +53,20 @@ VARIABLES
   pend,          \* per subscriber: spawned, not yet executed insufficient-state goroutines
   out,           \* per subscriber: frames received
   dlv,           \* history: offsets in the order they entered the node
+  now,           \* clock in seconds (stays 0 when ~Timed)
+  mct,           \* channelMedium.positionCheckTime: moved by broadcasts, by the sentinel and by PERFORMED checks only
+  cct,           \* per subscriber: ChannelContext.positionCheckTime (subscribe, accepted publication, valid check)
   step
 
-vars == <<opts, top, wire, npub, faults, nticks, nresub, med, q, wpc, witem, latest, sub, pend, out, dlv, step>>
+clk == <<now, mct, cct>>
+vars == <<opts, top, wire, npub, faults, nticks, nresub, med, q, wpc, witem, latest, sub, pend, out, dlv, now, mct, cct, step>>
 
 OptAll == {o \in [keep : BOOLEAN, shared : BOOLEAN, queue : BOOLEAN, delay : BOOLEAN] : o.delay => o.queue}
 OptQueue == {o \in OptAll : o.queue}
 OptDirect == {o \in OptAll : ~o.queue}
 OptShared == {o \in OptAll : o.shared /\ ~o.keep}
+OptSharedOnly == {o \in OptShared : ~o.queue}
+OptSharedQD == {o \in OptShared : o.queue <=> o.delay}
 
 Enabled(o) == o.keep \/ o.shared \/ o.queue \/ o.delay      \* isMediumEnabled
 Live(s) == sub[s].st = "live"
@@ -70,6 +80,7 @@ Init ==
   /\ pend = [s \in Subs |-> 0]
   /\ out = [s \in Subs |-> <<[t |-> "sub", off |-> 0]>>]
   /\ dlv = <<>>
+  /\ now = 0 /\ mct = 0 /\ cct = [s \in Subs |-> 0]
   /\ step = [act |-> "Init"]
 
 ---------------------------------------------------------------------------
@@ -86,7 +97,9 @@ Recv(s, it) ==     \* [sub, pend, out] of subscriber s after receiving item it
   ELSE [sub |-> [sub[s] EXCEPT !.pos = it.off], pend |-> pend[s],
         out |-> Append(out[s], [t |-> "pub", off |-> it.off])]
 
+Accepts(s, it) == Live(s) /\ Positioned(s) /\ it.t = "pub" /\ it.off = sub[s].pos + 1
 Broadcast(it) ==
+  /\ cct' = [s \in Subs |-> IF Accepts(s, it) THEN now ELSE cct[s]]
   /\ sub'  = [s \in Subs |-> Recv(s, it).sub]
   /\ pend' = [s \in Subs |-> Recv(s, it).pend]
   /\ out'  = [s \in Subs |-> Recv(s, it).out]
@@ -101,13 +114,13 @@ QBytes == Len(SelectSeq(q, LAMBDA e : e.t = "pub"))
 Publish ==
   /\ npub < MaxPub
   /\ npub' = npub + 1 /\ top' = top + 1 /\ wire' = wire \cup {top + 1}
-  /\ UNCHANGED <<opts, faults, nticks, nresub, med, q, wpc, witem, latest, sub, pend, out, dlv>>
+  /\ UNCHANGED <<opts, faults, nticks, nresub, med, q, wpc, witem, latest, sub, pend, out, dlv, clk>>
   /\ step' = [act |-> "Publish", off |-> top + 1]
 
 Drop(o) ==                                        \* PUB/SUB loss
   /\ o \in wire /\ faults < MaxFaults
   /\ faults' = faults + 1 /\ wire' = wire \ {o}
-  /\ UNCHANGED <<opts, top, npub, nticks, nresub, med, q, wpc, witem, latest, sub, pend, out, dlv>>
+  /\ UNCHANGED <<opts, top, npub, nticks, nresub, med, q, wpc, witem, latest, sub, pend, out, dlv, clk>>
   /\ step' = [act |-> "Drop", off |-> o]
 
 \* Node.HandlePublication -> medium.broadcastPublication (or straight to the hub without a medium)
@@ -121,13 +134,14 @@ Deliver(o) ==
   /\ LET it == [t |-> "pub", off |-> o] IN
      IF med /\ opts.queue
        THEN IF QBytes > QMax
-              THEN /\ UNCHANGED <<q, latest, sub, pend, out>>                \* queue full: dropped, nobody is told
+              THEN /\ UNCHANGED <<q, latest, sub, pend, out, cct>>           \* queue full: dropped, nobody is told
                    /\ step' = [act |-> "Deliver", off |-> o, res |-> "dropped"]
-              ELSE /\ q' = Append(q, it) /\ UNCHANGED <<latest, sub, pend, out>>
+              ELSE /\ q' = Append(q, it) /\ UNCHANGED <<latest, sub, pend, out, cct>>
                    /\ step' = [act |-> "Deliver", off |-> o, res |-> "queued"]
        ELSE /\ Broadcast(it) /\ UNCHANGED q
             /\ step' = [act |-> "Deliver", off |-> o, res |-> "broadcast"]
-  /\ UNCHANGED <<opts, top, npub, nticks, nresub, med, wpc, witem>>
+  /\ mct' = IF med THEN now ELSE mct        \* broadcastPublication stamps positionCheckTime first
+  /\ UNCHANGED <<opts, top, npub, nticks, nresub, med, wpc, witem, now>>
 
 \* writer goroutine, no delay: waitSendPub(0)
 WriterCanTake == med /\ opts.queue /\ ~opts.delay /\ wpc = "idle" /\ q # <<>>
@@ -135,16 +149,16 @@ WriterTake(park) ==
   /\ WriterCanTake
   /\ q' = Tail(q)
   /\ IF park /\ Writes(Head(q))
-       THEN /\ wpc' = "busy" /\ witem' = Head(q) /\ UNCHANGED <<latest, sub, pend, out>>
+       THEN /\ wpc' = "busy" /\ witem' = Head(q) /\ UNCHANGED <<latest, sub, pend, out, cct>>
             /\ step' = [act |-> "WriterTake", park |-> TRUE, item |-> Head(q)]
        ELSE /\ Broadcast(Head(q)) /\ UNCHANGED <<wpc, witem>>
             /\ step' = [act |-> "WriterTake", park |-> FALSE, item |-> Head(q)]
-  /\ UNCHANGED <<opts, top, wire, npub, faults, nticks, nresub, med, dlv>>
+  /\ UNCHANGED <<opts, top, wire, npub, faults, nticks, nresub, med, dlv, now, mct>>
 
 WriterDone ==
   /\ wpc = "busy"
   /\ Broadcast(witem) /\ wpc' = "idle" /\ witem' = Sentinel
-  /\ UNCHANGED <<opts, top, wire, npub, faults, nticks, nresub, med, q, dlv>>
+  /\ UNCHANGED <<opts, top, wire, npub, faults, nticks, nresub, med, q, dlv, now, mct>>
   /\ step' = [act |-> "WriterDone", item |-> witem]
 
 \* writer goroutine with broadcast delay: after the delay take the first message; a sentinel is broadcast at once,
@@ -163,7 +177,7 @@ WriterTick ==
                   ELSE IF k # 0 THEN SubSeq(rest, k + 1, Len(rest)) ELSE <<>>
      IN /\ q' = left /\ Broadcast(msg)
         /\ step' = [act |-> "WriterTick", item |-> msg, skipped |-> Len(q) - Len(left) - 1]
-  /\ UNCHANGED <<opts, top, wire, npub, faults, nticks, nresub, med, wpc, witem, dlv>>
+  /\ UNCHANGED <<opts, top, wire, npub, faults, nticks, nresub, med, wpc, witem, dlv, now, mct>>
 
 \* handleInsufficientState goroutine of a client-side subscription: unsubscribe + unsubscribe push
 AsyncEnd(s) ==
@@ -171,7 +185,7 @@ AsyncEnd(s) ==
   /\ pend' = [pend EXCEPT ![s] = @ - 1]
   /\ sub' = IF Live(s) THEN [sub EXCEPT ![s].st = "ended"] ELSE sub
   /\ out' = [out EXCEPT ![s] = Append(@, [t |-> "unsub", code |-> InsufficientCode])]   \* pushed even when already gone
-  /\ UNCHANGED <<opts, top, wire, npub, faults, nticks, nresub, med, q, wpc, witem, latest, dlv>>
+  /\ UNCHANGED <<opts, top, wire, npub, faults, nticks, nresub, med, q, wpc, witem, latest, dlv, clk>>
   /\ step' = [act |-> "AsyncEnd", s |-> s]
 
 \* The periodic tick of every connection with a live positioned subscription, the check delay having elapsed.
@@ -182,6 +196,7 @@ AsyncEnd(s) ==
 \* positioned subscriber of the channel, and the caller ends itself as well.
 Callers == {s \in Subs : Positioned(s) /\ Live(s)}
 Tick(res, c) ==
+  /\ ~Timed
   /\ nticks < MaxTicks /\ nticks' = nticks + 1
   /\ c \in Callers
   /\ IF res = "error"
@@ -203,21 +218,67 @@ Tick(res, c) ==
             /\ pend' = [s \in Subs |-> IF s \in bad THEN pend[s] + 1 ELSE pend[s]]
             /\ UNCHANGED <<q, latest, sub, out>>
             /\ step' = [act |-> "Tick", res |-> IF bad = {} THEN "valid" ELSE "invalid", first |-> c, stale |-> bad]
-  /\ UNCHANGED <<opts, top, wire, npub, faults, nresub, med, wpc, witem, dlv>>
+  /\ UNCHANGED <<opts, top, wire, npub, faults, nresub, med, wpc, witem, dlv, clk>>
+
+\* Timed form.  The clock advances; one connection's periodic tick runs Client.checkPosition for its subscription:
+\*   due       == now - cct[s] > CheckDelay                       (client.go: nowUnix - positionCheckTime > delay)
+\*   shared:      performed == now - mct >= CheckDelay; ONLY THEN mct' = now       (channelMedium.CheckPosition);
+\*                not performed, or the history call failed: answered "valid" without looking at the stream;
+\*                performed and pos # top: broadcastInsufficientState (stamps mct, reaches every positioned
+\*                subscriber) and the caller's own end
+\*   otherwise:   the caller compares its own position; a failed history call is retried at the next tick
+\*   a "valid" answer stamps cct[s] = now.
+Advance(d) ==
+  /\ Timed /\ now + d <= MaxNow
+  /\ now' = now + d
+  /\ UNCHANGED <<opts, top, wire, npub, faults, nticks, nresub, med, q, wpc, witem, latest, sub, pend, out, dlv, mct, cct>>
+  /\ step' = [act |-> "Advance", d |-> d, now |-> now + d]
+
+TickOne(s, res) ==
+  /\ Timed /\ Positioned(s) /\ Live(s)
+  /\ nticks < MaxTicks /\ nticks' = nticks + 1
+  /\ LET due  == now - cct[s] > CheckDelay
+         shr  == med /\ opts.shared
+         perf == due /\ (shr => now - mct >= CheckDelay)
+         bad  == sub[s].pos # top
+         rec(r) == [act |-> "TickOne", s |-> s, due |-> due, performed |-> perf, res |-> r, now |-> now]
+     IN IF ~due
+          THEN /\ UNCHANGED <<q, latest, sub, pend, out, mct, cct>> /\ step' = rec("notdue")
+        ELSE IF shr /\ ~perf
+          THEN /\ cct' = [cct EXCEPT ![s] = now]
+               /\ UNCHANGED <<q, latest, sub, pend, out, mct>> /\ step' = rec("skipped")
+        ELSE IF res = "error"
+          THEN /\ mct' = IF shr THEN now ELSE mct
+               /\ cct' = IF shr THEN [cct EXCEPT ![s] = now] ELSE cct       \* the medium answers true on an error
+               /\ UNCHANGED <<q, latest, sub, pend, out>> /\ step' = rec("error")
+        ELSE IF ~bad
+          THEN /\ mct' = IF shr THEN now ELSE mct
+               /\ cct' = [cct EXCEPT ![s] = now]
+               /\ UNCHANGED <<q, latest, sub, pend, out>> /\ step' = rec("valid")
+        ELSE /\ step' = rec("invalid")
+             /\ mct' = IF shr THEN now ELSE mct
+             /\ UNCHANGED <<latest, sub, out, cct>>
+             /\ IF shr
+                  THEN IF opts.queue
+                         THEN /\ q' = Append(q, Sentinel) /\ pend' = [pend EXCEPT ![s] = @ + 1]
+                         ELSE /\ pend' = [x \in Subs |-> IF x = s THEN pend[x] + 2 ELSE IF x \in Callers THEN pend[x] + 1 ELSE pend[x]]
+                              /\ UNCHANGED q
+                  ELSE /\ pend' = [pend EXCEPT ![s] = @ + 1] /\ UNCHANGED q
+  /\ UNCHANGED <<opts, top, wire, npub, faults, nresub, med, wpc, witem, dlv, now>>
 
 \* client command: unsubscribe (reply written)
 Unsubscribe(s) ==
   /\ Live(s) /\ nresub < MaxResub
   /\ sub' = [sub EXCEPT ![s].st = "none"]
   /\ out' = [out EXCEPT ![s] = Append(@, [t |-> "unsubreply"])]
-  /\ UNCHANGED <<opts, top, wire, npub, faults, nticks, nresub, med, q, wpc, witem, latest, pend, dlv>>
+  /\ UNCHANGED <<opts, top, wire, npub, faults, nticks, nresub, med, q, wpc, witem, latest, pend, dlv, clk>>
   /\ step' = [act |-> "Unsubscribe", s |-> s]
 
 \* the dissolver, >= 1 s after the last subscriber left: medium.close(), the queue is discarded
 Shutdown ==
   /\ med /\ ~AnyLive /\ wpc = "idle" /\ \A s \in Subs : pend[s] = 0
   /\ med' = FALSE /\ q' = <<>> /\ latest' = 0
-  /\ UNCHANGED <<opts, top, wire, npub, faults, nticks, nresub, wpc, witem, sub, pend, out, dlv>>
+  /\ UNCHANGED <<opts, top, wire, npub, faults, nticks, nresub, wpc, witem, sub, pend, out, dlv, clk>>
   /\ step' = [act |-> "Shutdown"]
 
 \* client command: subscribe again (position = current stream top); the first subscriber creates a new medium.
@@ -229,7 +290,9 @@ Resubscribe(s) ==
   /\ med' = IF AnyLive THEN med ELSE Enabled(opts)
   /\ sub' = [sub EXCEPT ![s] = [st |-> "live", pos |-> top]]
   /\ out' = [out EXCEPT ![s] = Append(@, [t |-> "sub", off |-> IF Positioned(s) THEN top ELSE 0])]
-  /\ UNCHANGED <<opts, top, wire, npub, faults, nticks, q, wpc, witem, latest, pend, dlv>>
+  /\ cct' = [cct EXCEPT ![s] = now]
+  /\ mct' = IF AnyLive THEN mct ELSE now           \* newChannelMedium stamps positionCheckTime
+  /\ UNCHANGED <<opts, top, wire, npub, faults, nticks, q, wpc, witem, latest, pend, dlv, now>>
   /\ step' = [act |-> "Resubscribe", s |-> s]
 
 Quiet == q = <<>> /\ wpc = "idle"
@@ -239,7 +302,7 @@ SentinelWaits == med /\ opts.queue /\ opts.delay /\ q # <<>> /\ Head(q).t = "ins
 Next ==
   IF Urgent /\ \E s \in Subs : pend[s] > 0 THEN \E s \in Subs : AsyncEnd(s)
   ELSE IF Urgent /\ WriterCanTake THEN \E p \in BOOLEAN : WriterTake(p)
-  ELSE IF Urgent /\ SentinelWaits THEN WriterTick
+  ELSE IF Urgent /\ SentinelWaits THEN (WriterTick \/ \E o \in wire : Deliver(o))   \* the delay window is short
   ELSE
     \/ Publish
     \/ \E o \in wire : Drop(o) \/ Deliver(o)
@@ -247,6 +310,8 @@ Next ==
     \/ WriterDone \/ WriterTick
     \/ \E s \in Subs : AsyncEnd(s)
     \/ \E r \in {"ok", "error"}, c \in Subs : (Urgent => Quiet) /\ Tick(r, c)
+    \/ \E r \in {"ok", "error"}, c \in Subs : (Urgent => Quiet) /\ TickOne(c, r)
+    \/ \E d \in Advances : (Urgent => Quiet) /\ Advance(d)
     \/ \E s \in Subs : (Urgent => Quiet) /\ (Unsubscribe(s) \/ Resubscribe(s))
     \/ (Urgent => Quiet) /\ Shutdown
 
@@ -303,6 +368,18 @@ TickExact == [][ (step'.act = "Tick" /\ step'.res # "error") =>
                    IF med /\ opts.shared
                      THEN (step'.res = "invalid") <=> (sub[step'.first].pos # top)
                      ELSE (step'.res = "invalid") <=> (step'.stale # {}) ]_vars
+\* timed form: the medium consults the stream exactly when the delay elapsed since the last PERFORMED check (or
+\* broadcast); a performed comparison that finds a stale position ends the affected subscriptions
+TickOneExact == [][ step'.act = "TickOne" =>
+                      /\ step'.due <=> (now - cct[step'.s] > CheckDelay)
+                      /\ step'.performed <=> (step'.due /\ ((med /\ opts.shared) => now - mct >= CheckDelay))
+                      /\ (step'.performed /\ step'.res # "error") => ((step'.res = "invalid") <=> (sub[step'.s].pos # top))
+                      /\ (step'.res = "invalid") =>
+                           \A x \in Subs : (Positioned(x) /\ Live(x) /\ ((med /\ opts.shared) \/ x = step'.s)) =>
+                               (pend'[x] > pend[x] \/ \E e \in 1..Len(q') : q'[e].t = "ins") ]_vars
+\* only performed checks (and broadcasts) move the medium's timestamp
+StampMoves == [][ (mct' # mct) => \/ step'.act \in {"Deliver", "Resubscribe"}
+                                   \/ (step'.act = "TickOne" /\ step'.performed) ]_vars
 \* state form used by the harness at quiescent points after a Tick: LivePositionedAtTop
 NoSilentLoss == (Quiet /\ \A s \in Subs : pend[s] = 0) =>
                    \A s \in Subs : (Positioned(s) /\ Live(s)) =>
@@ -314,5 +391,5 @@ TypeOK == /\ faults <= MaxFaults /\ npub <= MaxPub /\ top = npub
           /\ (wpc = "busy") => (med /\ opts.queue)
           /\ (~med) => (q = <<>>)
 
-View == <<opts, top, wire, npub, faults, nticks, nresub, med, q, wpc, witem, latest, sub, pend, out, dlv>>
+View == <<opts, top, wire, npub, faults, nticks, nresub, med, q, wpc, witem, latest, sub, pend, out, dlv, now, mct, cct>>
 =============================================================================
